@@ -301,6 +301,8 @@ def plan(ctx):
             tasks.append(("checks.C06", "task_accessors_ctx", ("NAMES_CTX1", gi, 12, ("nF1", "nK2") + (() if quick else ("nX2",))), b, "x1"))
         for gi in range(24):
             tasks.append(("checks.C06", "task_accessors_ctx", ("NAMES_CTX2", gi, 24, ("nF1",)), b, "x2"))
+        for gi in range(12):
+            tasks.append(("vlib.sweep", "task_route_group", ("checks.C06", "NAMES_BCTX", gi, 12, ("nF1",) if quick else ("nF1", "nK2")), b, "xb"))
     ctx.notes["context_routes"] = sweep.ctx_note()
     rb = [n for n in routes.NAMES if routes.ROUTES[n].kind in READBACK_KINDS]
     tasks += sweep.plan_routes("checks.C06", rb, aspaces)
